@@ -58,6 +58,16 @@ static int ledger_del(void *p)
     --ledger_live;
     return 1;
 }
+static size_t ledger_size(void *p)
+{
+    size_t i = lslot(p);
+    while (ledger[i].p != p)
+    {
+        if (!ledger[i].p) { return 0; }
+        i = (i + 1) & (LCAP - 1);
+    }
+    return ledger[i].n;
+}
 static void ledger_release_all(void)
 {
     for (size_t i = 0; i < LCAP; ++i)
@@ -76,7 +86,10 @@ static void *vf_alloc_fn(void *addr, a_size size)
         void *p;
         ++req_count;
         ++req_in_op;
-        if (fail_at && (fail_persistent ? req_count >= fail_at : req_count == fail_at))
+        /* plan 2, "tight memory": from request fail_at on, every request that needs NEW memory is refused (fresh blocks, growth), while a request that
+           fits in the block it already has (same size, shrink) is granted - how an allocator on an exhausted heap behaves (seeded change C05-M: a
+           growth retried with halved increments ends with increment 0, which is granted, and is then taken for growth) */
+        if (fail_at && (fail_persistent == 2 ? req_count >= fail_at && (!addr || size > ledger_size(addr)) : fail_persistent ? req_count >= fail_at : req_count == fail_at))
         {
             fault_fired = 1;
             ++fired_total;
@@ -340,7 +353,7 @@ static int seq_exec(seqst *s, opd const *o)
                return null and leave count and elements alone (seeded change C07-I: the count is cut before the outcome of the
                reallocation is known).  When the request would be granted the call is not made: what a granted one leaves behind
                is outside this property. */
-            if (s->n >= 2 && (o->b & 1) && fail_at && (fail_persistent ? req_count + 1 >= fail_at : req_count + 1 == fail_at))
+            if (s->n >= 2 && (o->b & 1) && fail_at && fail_persistent != 2 /* tight memory grants a shrink */ && (fail_persistent ? req_count + 1 >= fail_at : req_count + 1 == fail_at))
             {
                 m = o->b / 2 % s->n;
                 VF_COUNT("buf-setm-below-the-count-refused");
@@ -721,7 +734,7 @@ static uint64_t site_seen[512];
 static void site_cell(int op, int reqidx, int persistent)
 {
     char b[96];
-    snprintf(b, sizeof(b), "%s|%s|req%d|%s", kind_names[Hkind], op_names[op], reqidx, persistent ? "persistent" : "single");
+    snprintf(b, sizeof(b), "%s|%s|req%d|%s", kind_names[Hkind], op_names[op], reqidx, persistent == 2 ? "tight" : persistent ? "persistent" : "single");
     vf_distinct_str(b);
     (void)site_seen;
 }
@@ -754,7 +767,7 @@ static uint64_t run_history(uint64_t fault_k, int persistent)
         fault_fired = 0;
         req_in_op = 0;
         fired_req_in_op = -1;
-        if (vf.explain) { vf_log("  [%s k=%" PRIu64 "] op %d %s a=%zu b=%zu%s", persistent ? "persistent" : fault_k ? "single" : "fault-free", fault_k, i, cur_op, o->a, o->b, attempt ? " (retry)" : ""); }
+        if (vf.explain) { vf_log("  [%s k=%" PRIu64 "] op %d %s a=%zu b=%zu%s", persistent == 2 ? "tight" : persistent ? "persistent" : fault_k ? "single" : "fault-free", fault_k, i, cur_op, o->a, o->b, attempt ? " (retry)" : ""); }
         switch (Hkind)
         {
         case 0: case 1: status = seq_exec(&sq, o); break;
@@ -827,7 +840,7 @@ static uint64_t run_history(uint64_t fault_k, int persistent)
             size_t bytes = 0;
             for (size_t i = 0; i < LCAP; ++i) { if (ledger[i].p) { bytes += ledger[i].n; } }
             cur_op = "history";
-            FAIL("leak", "%zu block(s), %zu bytes still live after the container was destroyed (%s fault at request %" PRIu64 ")", ledger_live, bytes, persistent ? "persistent" : fault_k ? "single" : "no", fault_k);
+            FAIL("leak", "%zu block(s), %zu bytes still live after the container was destroyed (%s fault at request %" PRIu64 ")", ledger_live, bytes, persistent == 2 ? "tight-memory" : persistent ? "persistent" : fault_k ? "single" : "no", fault_k);
         }
     }
     ledger_release_all();
@@ -861,6 +874,11 @@ static void vf_case(uint64_t c, vf_rng *r)
         run_history(k, 1);
         ++vf.evals;
         VF_COUNT("persistent-fault-runs");
+        if (vf.case_viol) { return; }
+        vf_log("tight memory from request %" PRIu64 " of %" PRIu64 ": only requests that fit in the block they already have are granted", k, A);
+        run_history(k, 2);
+        ++vf.evals;
+        VF_COUNT("tight-memory-runs");
         if (vf.case_viol) { return; }
     }
     if (vf_want_sample() && c % 5 == 0)
